@@ -205,7 +205,11 @@ ONAMES = {
 WORDS = ["abc", "red", "RED", "Green", "blue", "cyan", "magenta", "yellow", "white", "black", "reddish", "log", "LOG", "lag", "#ff0000",
          "#FF000080", "#80", "#8040", "#8", "#gg0000", "#0a1B2c", "b", "e", "z", "bez", "ZE", "x", "y", "xy", "zx", "xyz", "A", "r", "~",
          "5", "hi there", "Hall\xf6_xy", "a'b", " x ", "12abc", "0.5 0.25", "a b", "b a", "a", "w", "a  w", "b\ta"]
-HINT = {"title": "str", "alias": "str", "value": "str", "font": "str", "name": "str", "axes": "bind", "worlds": "bind"}
+HINT = {"title": "str", "alias": "str", "value": "str", "font": "str", "name": "str", "axes": "bind", "worlds": "bind",
+        "color": "col", "colour": "col", "foreground": "col", "fg": "col", "background": "col", "bg": "col",
+        "pos": "pt", "position": "pt", "scale": "pt",
+        "lpos": "chr", "tpos": "chr", "labelpos": "chr", "titlepos": "chr", "grid": "chr", "type": "chr", "gridtype": "chr"}
+COLWORDS = [w for w in WORDS if w[:1] == "#" or w.lower() in ("red", "green", "blue", "cyan", "magenta", "yellow", "white", "black", "reddish")]
 
 
 def codes(s):
@@ -234,6 +238,15 @@ def rand_value(rng, name, pool=()):
             runs += [ch, rng.choice([1, 2, 15, 200, 249, 250, 251, 255, 256, 1000, 70000])]
         return dict(blank, f="rle", c=runs)
     r = rng.random()
+    if h == "col" and r < 0.8:
+        return dict(blank, f="txt", c=codes(rng.choice(COLWORDS)))
+    if h == "chr" and r < 0.8:
+        return dict(blank, f="txt", c=codes(rng.choice(["A", "r", "~", "5", "b", "x", "Zz", "left"])))
+    if h == "pt" and r < 0.8:
+        pick = lambda: rng.choice([0, 1, 2, 2, 3, -1, 4])
+        return dict(blank, f="num", n=dbl(pick()), sty="dec") if rng.random() < 0.4 else dict(blank, f="num2", n=dbl(pick()) + dbl(pick()))
+    if h is None and r < 0.45:        # a small number suits most numeric properties
+        return dict(blank, f="num", n=dbl(2 * rng.choice([0, 1, 2, 3, 4, 5, 7, 8, 10, 11, 20])), sty=rng.choice(["dec", "dec", "sp", "plus", "hex", "flt"]))
     if r < 0.5:
         base = rng.choice([0, 1, 2, 5, 8, 10, 20, 21, 127, 255, 256, 300, 32767, 32768, 65535, 65536, 100000, 2 ** 31 - 1, 2 ** 32 - 1, 2 ** 32])
         v2 = 2 * (base + rng.choice([-1, 0, 0, 1]))
@@ -295,7 +308,7 @@ def gen_docs(ck, n, nitems):
             elif len(frames) > 1:
                 items.append({"k": "close", "d": rand_deco(rng)})
                 frames.pop()
-        docs.append({"a": "doc", "arg": {"items": items, "probe": rng.choice(["none", "dump", "clone", "null", "empty", "props", "cload"])}})
+        docs.append({"a": "doc", "arg": {"items": items, "probe": rng.choice(["none", "dump", "clone", "null", "empty", "props", "cload", "inst"])}})
     return docs
 
 
@@ -348,7 +361,7 @@ def run_part(ck, tier):
 
     def job_gen():
         if tier == "quick":
-            g = vlib.tlc("Gen_LayoutTree", cfg["gen"], workers=4, timeout=1200, xss="512m")     # word splitting recurses per character
+            g = vlib.tlc("Gen_LayoutTree", cfg["gen"], workers=max(2, vlib.NCPU // 2), timeout=1200, xss="512m")     # word splitting recurses per character
             if g.error or g.violation:
                 raise vlib.MachineryError("X20 case export failed: %s %s" % (g.error, g.violation))
             behs = vlib.parse_behaviours(g.out)
